@@ -92,8 +92,8 @@ class Vector(object):
                       check_bounds=bool(dct["check_bounds"]),
                       check_hitbounds=bool(dct["check_hitbounds"]),
                       accept_nan=bool(dct["accept_nan"]))
-        vect._hitbounds = bool(dct["hitbounds"])
         vect.values = values
+        vect._hitbounds = bool(dct["hitbounds"])
 
         return vect
 
@@ -234,9 +234,12 @@ class Vector(object):
     def clone(self):
         """ Clone the vector """
         clone = Vector(self.names, self.defaults, self.mins,
-                       self.maxs, self.check_hitbounds)
+                       self.maxs, check_bounds=self.check_bounds,
+                       check_hitbounds=self.check_hitbounds,
+                       accept_nan=self.accept_nan)
 
         clone.values = self.values.copy()
+        clone._hitbounds = self._hitbounds
 
         return clone
 
